@@ -651,8 +651,16 @@ func runScenario(id int, sc Scenario, r *hx.Rand) {
 		hx.Printf("crash %d %s\n", id, strings.ReplaceAll(crash, "\n", " "))
 		return
 	}
-	for _, l := range lines {
+	// the reported parseNum results again as observables: the driver answers with what the
+	// specification of "num" demands for each value
+	for i, l := range lines {
 		hx.Printf("%s\n", l)
+		if i == 0 {
+			hx.Printf("obs %d pn=%s\n", id, pnS)
+			if sc.S {
+				hx.Printf("sobs %d pn=%s\n", id, pnS)
+			}
+		}
 	}
 }
 
